@@ -249,6 +249,11 @@ def is_numeric(x):
     return isinstance(x, (int, bool, np.integer, np.bool_, SInt, CVal, float, np.floating)) or (is_sym(x) and z3.is_bool(x))
 
 
+def _widen_fp(t, ct):
+    """float32 term -> float64 term (exact)."""
+    return t if ct.bits == 64 else z3.fpFPToFP(RNE, t, z3.Float64())
+
+
 def to_z3_scalar(x):
     """z3 term for merging purposes, with a tag describing how to rebuild the value."""
     if isinstance(x, CVal):
@@ -261,6 +266,9 @@ def to_z3_scalar(x):
         return sint_z3(int(x)), ('s',)
     if is_sym(x) and z3.is_bool(x):
         return x, ('b',)
+    if isinstance(x, (float, np.floating)):
+        ct = C_FLOAT if isinstance(x, np.float32) else C_DOUBLE
+        return z3.FPVal(float(x), fp_sort(ct)), ('c', ct)
     raise CannotEncode(f'cannot merge value {x!r}')
 
 
@@ -303,6 +311,10 @@ def ite(c, a, b):
                 ta, ka = z3.If(ta, sint_z3(1), sint_z3(0)), ('s',)
             else:
                 tb, kb = z3.If(tb, sint_z3(1), sint_z3(0)), ('s',)
+        if ka != kb and ka[0] == 'c' and kb[0] == 'c' and ka[1].kind == 'float' and kb[1].kind == 'float':
+            # python float (binary64) vs C float: compare / merge as binary64 (widening is exact)
+            ta, tb = _widen_fp(ta, ka[1]), _widen_fp(tb, kb[1])
+            ka = kb = ('c', C_DOUBLE)
         if ka != kb:
             if ka[0] == 'c' and kb[0] == 's' and not is_sym(b):
                 tb, kb = CVal(int(b), ka[1]).z3(), ka
